@@ -138,7 +138,7 @@ def gen_config(rng, small=False, want=None, avoid=()):
 ALL_FEATURES = ["sparse_super", "large_file", "filetype", "dir_index", "ext_attr", "resize_inode", "extent",
                 "huge_file", "dir_nlink", "flex_bg", "64bit", "metadata_csum", "uninit_bg", "metadata_csum_seed",
                 "has_journal", "extra_isize", "inline_data", "project", "ea_inode", "bigalloc", "meta_bg",
-                "sparse_super2", "quota", "orphan_file", "large_dir", "mmp"]
+                "sparse_super2", "quota", "orphan_file", "large_dir", "mmp", "casefold"]
 
 
 def mkfs_argv(cfg, img, extra=()):
